@@ -124,6 +124,121 @@ SORT = dict(
              "exists(lambda k: 0 <= k and k < len(self.indices) and self.indices[k] == j)))"],
 )
 
+# ---- few-shot: blocks in class order; every selected sample is valid and labelled, classes non-decreasing, no sample twice (the amount per
+#      class - min(num_shots, class size) - is a counting statement and stays with the bounded stand-in)
+FEWSHOT = dict(
+    target=f"{W}/fewshot_wrapper.py::FewshotWrapper.__init__", self={}, merge=False,
+    params={"dataset": LABELDATASET, "num_shots": INT, "seed": INT},
+    requires=["num_shots >= 0", f"{N} >= 1"],
+    loops={0: dict(anchor="for i in range(num_classes)", index="c", havoc_types={"indices": TSeq(INT)},
+                   invariant=[f"forall(lambda k: implies(0 <= k and k < len(indices), 0 <= indices[k] and indices[k] < {N} and "
+                              "0 <= LabelOf(dataset, indices[k]) and LabelOf(dataset, indices[k]) < c))",
+                              "forall(lambda k: implies(0 <= k and k + 1 < len(indices), "
+                              "LabelOf(dataset, indices[k]) <= LabelOf(dataset, indices[k + 1])))",
+                              "forall(lambda a, b: implies(0 <= a and a < b and b < len(indices), indices[a] != indices[b]))"])},
+    ensures=[f"forall(lambda k: implies(0 <= k and k < len(self.indices), 0 <= self.indices[k] and self.indices[k] < {N} and "
+             "0 <= LabelOf(dataset, self.indices[k])))",
+             "forall(lambda a, b: implies(0 <= a and a < b and b < len(self.indices), self.indices[a] != self.indices[b]))",
+             "forall(lambda k: implies(0 <= k and k + 1 < len(self.indices), "
+             "LabelOf(dataset, self.indices[k]) <= LabelOf(dataset, self.indices[k + 1])))"],
+)
 
-CONTRACTS = [PERCENT, SUBSET_IDX, SUBSET_PCT, REPEAT, SHUFFLE, class_filter(True), class_filter(False), SORT]
+
+# ---- oversampling (multiply): every sample is kept (the original order is a prefix) and whatever is appended is a valid, labelled
+#      sample - unlabeled samples are never multiplied. (How often a class is multiplied depends on the class counts, which enter as an
+#      uninterpreted assumed contract: the balance clause stays with the bounded stand-in.)
+OVER_MULT = dict(
+    target=f"{W}/oversampling_wrapper.py::OversamplingWrapper.__init__", name=f"{W}/oversampling_wrapper.py::OversamplingWrapper.__init__[multiply]",
+    self={}, merge=False, params={"dataset": LABELDATASET}, concrete={"mode": "multiply"},
+    loops={0: dict(anchor="for i in range(len(class_counts))", index="c", havoc_types={"indices": TSeq(INT)},
+                   invariant=[f"len(indices) >= {N}",
+                              f"forall(lambda k: implies(0 <= k and k < {N}, indices[k] == k))",
+                              f"forall(lambda k: implies({N} <= k and k < len(indices), 0 <= indices[k] and indices[k] < {N} and "
+                              "0 <= LabelOf(dataset, indices[k]) and LabelOf(dataset, indices[k]) < c))"])},
+    ensures=[f"len(self.indices) >= {N}",
+             f"forall(lambda k: implies(0 <= k and k < {N}, self.indices[k] == k))",
+             f"forall(lambda k: implies({N} <= k and k < len(self.indices), 0 <= self.indices[k] and self.indices[k] < {N} and "
+             "0 <= LabelOf(dataset, self.indices[k])))"],
+)
+
+
+CONTRACTS = [PERCENT, SUBSET_IDX, SUBSET_PCT, REPEAT, SHUFFLE, class_filter(True), class_filter(False), SORT, FEWSHOT, OVER_MULT]
 TERMINATION = [OVER_EXACT]
+
+
+# (ClasswiseSubsetWrapper is NOT under contract. A percent-range contract over an assumed contract of get_class_counts_and_indices
+#  - indices[c] the increasing enumeration of class c, rank within the class in [int(sp * n_c), int(ep * n_c)) - got every post-condition
+#  and the order invariant discharged, but the preservation of the range / completeness invariants stayed *unknown* in z3 and cvc5:
+#  the non-linear product int(p * Cnt(label(e))) under a quantifier. Undecided obligations are not registered; the wrapper stays bounded.)
+
+
+CONTRACTS = [PERCENT, SUBSET_IDX, SUBSET_PCT, REPEAT, SHUFFLE, class_filter(True), class_filter(False), SORT, FEWSHOT, OVER_MULT]
+TERMINATION = [OVER_EXACT]
+
+
+# ---- class-wise subset (percent ranges): per class c the samples of rank [int(sp * n_c), int(ep * n_c)) within the class, blocks in class
+#      order - so complementary percent ranges partition every class. get_class_counts_and_indices enters as an ASSUMED contract
+#      (trusted, exercised by the bounded stand-in): indices[c] = increasing enumeration CIdx(c, .) of the samples labelled c,
+#      counts[c] = Cnt(c) = its length, CRank the rank of a sample within its class.
+def _ext_counts_and_indices(args, kwargs, st, eng):
+    import z3
+    from pyvc.state import uid
+    from pyvc.values import VStr
+    ds = eng.deref(kwargs.get("dataset", args[0] if args else None), st)
+    C, n_ = ds.ncls(), ds.n
+    lab = lambda j: ds.item(VStr("class").t, j).t
+    CIdx = z3.Function("CIdx", z3.IntSort(), z3.IntSort(), z3.IntSort())
+    Cnt = z3.Function("Cnt", z3.IntSort(), z3.IntSort())
+    CRank = z3.Function("CRank", z3.IntSort(), z3.IntSort())
+    i, r, j = z3.Int(uid("i")), z3.Int(uid("r")), z3.Int(uid("j"))
+    st.assume(z3.ForAll([i], z3.And(0 <= Cnt(i), Cnt(i) <= n_), patterns=[Cnt(i)]),
+              z3.ForAll([i, r], z3.Implies(z3.And(0 <= i, i < C, 0 <= r, r < Cnt(i)),
+                                           z3.And(0 <= CIdx(i, r), CIdx(i, r) < n_, lab(CIdx(i, r)) == i, CRank(CIdx(i, r)) == r)),
+                        patterns=[CIdx(i, r)]),
+              z3.ForAll([i, r], z3.Implies(z3.And(0 <= i, i < C, 0 <= r, r + 1 < Cnt(i)), CIdx(i, r) < CIdx(i, r + 1)),
+                        patterns=[CIdx(i, r + 1)]),
+              z3.ForAll([j], z3.Implies(z3.And(0 <= j, j < n_, 0 <= lab(j), lab(j) < C),
+                                        z3.And(0 <= CRank(j), CRank(j) < Cnt(lab(j)), CIdx(lab(j), CRank(j)) == j)),
+                        patterns=[CRank(j)]))
+    counts = VSeq(C, lambda t: VInt(Cnt(t)), INT)
+    counts.kind = z3.IntVal(1)
+
+    def per_class(t):
+        sq = VSeq(Cnt(t), lambda rr, t=t: VInt(CIdx(t, rr)), INT)
+        sq.kind = z3.IntVal(2)
+        return sq
+    idx = VSeq(C, per_class, TSeq(INT))
+    return VTuple([counts, st.alloc(idx)])
+
+
+_CW_IN = ("0 <= LabelOf(dataset, {e}) and LabelOf(dataset, {e}) < NumClasses(dataset) and "
+          "int(SP * Cnt(LabelOf(dataset, {e}))) <= CRank({e}) and CRank({e}) < int(EP * Cnt(LabelOf(dataset, {e})))")
+CLASSWISE_PCT = dict(
+    target=f"{W}/classwise_subset_wrapper.py::ClasswiseSubsetWrapper.__init__", name=f"{W}/classwise_subset_wrapper.py::ClasswiseSubsetWrapper.__init__[percent range]",
+    self={}, merge=False,
+    params={"dataset": LABELDATASET, "start_index": TNone(), "end_index": TNone(), "start_percent": TOpt(REAL), "end_percent": TOpt(REAL),
+            "check_enough_samples": BOOL},
+    funcs={"CIdx": ([INT, INT], INT), "Cnt": ([INT], INT), "CRank": ([INT], INT)},
+    externals={"kappadata/utils/class_counts.py::get_class_counts_and_indices": _ext_counts_and_indices},
+    requires=["start_percent is not None or end_percent is not None",
+              "implies(start_percent is not None, 0 <= val(start_percent) and val(start_percent) <= 1)",
+              "implies(end_percent is not None, 0 <= val(end_percent) and val(end_percent) <= 1)"],
+    let={"SP": "0 if start_percent is None else val(start_percent)", "EP": "1 if end_percent is None else val(end_percent)"},
+    # part of the assumed contract of get_class_counts_and_indices (class sizes are non-negative), stated up front so that the
+    # non-linear bound lemma below can be proved once, in isolation
+    axioms=["forall(lambda i: Cnt(i) >= 0)"],
+    lemmas=[H("forall(lambda i: 0 <= int(SP * Cnt(i)) and int(SP * Cnt(i)) <= int(EP * Cnt(i)) and int(EP * Cnt(i)) <= Cnt(i))",
+              "0 <= SP and SP <= EP and EP <= 1", "forall(lambda i: Cnt(i) >= 0)")],
+    loops={1: dict(anchor="for i in range(dataset.getdim_class())", index="c", havoc_types={"sub_indices": TSeq(INT)},
+                   invariant=[f"forall(lambda k: implies(0 <= k and k < len(sub_indices), 0 <= sub_indices[k] and sub_indices[k] < {N} and "
+                              "LabelOf(dataset, sub_indices[k]) < c and " + _CW_IN.format(e="sub_indices[k]") + "))",
+                              "forall(lambda k: implies(0 <= k and k + 1 < len(sub_indices), "
+                              + LEX.format(a="sub_indices[k]", b="sub_indices[k + 1]") + "))",
+                              f"forall(lambda j: implies(0 <= j and j < {N} and LabelOf(dataset, j) < c and " + _CW_IN.format(e="j") + ", "
+                              "exists(lambda k: 0 <= k and k < len(sub_indices) and sub_indices[k] == j)))"])},
+    ensures=[f"forall(lambda k: implies(0 <= k and k < len(self.indices), 0 <= self.indices[k] and self.indices[k] < {N} and "
+             + _CW_IN.format(e="self.indices[k]") + "))",
+             "forall(lambda k: implies(0 <= k and k + 1 < len(self.indices), " + LEX.format(a="self.indices[k]", b="self.indices[k + 1]") + "))",
+             f"forall(lambda j: implies(0 <= j and j < {N} and " + _CW_IN.format(e="j") + ", "
+             "exists(lambda k: 0 <= k and k < len(self.indices) and self.indices[k] == j)))"],
+)
